@@ -38,12 +38,20 @@ def generate(rng, tier) -> dict:
         nfiles = rng.choice([1, 1, 2])
         mx = 12 if tier == "quick" else 24
         counts = [rng.randint(1, max(1, mx // nfiles)) for _ in range(nfiles)]
+        big = rng.random() < (0.04 if tier == "quick" else 0.08)
+        if big:  # writes of several kB (page-sized thresholds); offsets/truncations are sampled there
+            nchans = rng.choice([c for c in (64, 128) if (c * nbits) % 8 == 0])
+            counts = [rng.randint(100, 400)]
+            nfiles = 1
         spec = {"nbits": nbits, "nchans": nchans, "nsamps": counts, "pad": [0] * nfiles, "vseed": rng.randrange(1 << 16),
                 "mode": "small" if name in ("downsample", "subband", "remove_zerodm", "clean_rfi", "to_tim", "to_spec") else "bits"}
         if nbits == 32 and spec["mode"] == "bits":
             spec["mode"] = "ramp"  # survivors are compared as float values: keep them finite
         if T.needs_disp_band(tname):
             spec.update(T.DISP_BAND)
+            spec["foff"] = -10.0 * 8 / max(8, nchans)
+        if big:
+            spec["big"] = True
         N = sum(counts)
         if rng.random() < 0.6:
             start, nsamps = 0, None
@@ -55,10 +63,16 @@ def generate(rng, tier) -> dict:
             params = T.gen_params(tname, rng, spec, ns) if name in T.NAMES else {}
         except Rejected:
             continue
+        if big and name == "extract_chans":  # keep the number of output files (hence fault points x survivors) small
+            params["chans"] = params["chans"][:3]
+        if big and name == "extract_bands":
+            params.update({"chanstart": 0, "nchans": nchans, "chanpersub": nchans // 2})
         if name == "clean_rfi":
             params = {"mask_value": rng.randint(0, 1), "freq_mask_chans": [c for c in range(nchans) if rng.random() < 0.3]}
         break
     gulp = max(1, rng.choice([1, 2, 3, rng.randint(1, max(1, ns)), ns, ns + 2]))
+    if spec.get("big"):
+        gulp = max(min(20, ns), rng.choice([64, 100, rng.randint(min(20, ns), ns), ns]))
     return {"files": spec, "name": name, "params": params, "start": start, "nsamps": nsamps, "gulp": gulp}
 
 
@@ -177,6 +191,8 @@ def execute(sc, ctx) -> None:
         start, nsamps, ns = 0, None, N
         sc = {**sc, "start": 0, "nsamps": None}
     ctx.probe(f"writer:{name}")
+    if spec.get("big"):
+        ctx.probe("big-writes")
     ctx.sig += [name, f"nbits{spec['nbits']}"]
     info = {"api": name, "params": sc["params"], "gulp": sc["gulp"], "start": start, "nsamps": ns, "N": N,
             "nbits": spec["nbits"], "nchans": spec["nchans"]}
